@@ -612,8 +612,8 @@ func checkConc(c concCase, run int, viol func(clause string, f map[string]string
 
 func main() {
 	vf.Main("C29", "exploration", func(r *vf.Run) {
-		r.Rule("sequential: PRNG histories of 40 operations (50% AddRoute, 35% RemoveRoute, 15% DropAllBySrc) by 2-4 sources over 3 route keys (IPv4 or IPv6, BGP or static paths, keys may share a prefix and differ in the next hops; one route in three carries 2-3 paths in its API message); half of the histories never re-advertise a key a source is already advertising, the other half do; after EVERY operation ContainsPfxPath for every key, the Loc-RIB dump and nothing else is compared with the set-of-sources model. concurrent: 3-4 source goroutines with scripts of 6-12 operations plus a reader of 8-12 probes and a final quiescent probe of every key, call/return stamped from one atomic counter, checked with porcupine per route key (DropAllBySrc = one operation per key). distinct_nontrivial = distinct histories in which some key is advertised by two sources at once AND the last advertising source withdraws or is dropped (sequential), or in which operations of different goroutines on one key overlap in time (concurrent)")
-		r.Assume("a source is an opaque comparable value (the RIS client passes its *grpc.ClientConn); one goroutine per source, as in the RIS mirror", "distinct route keys never share a (prefix, path) pair; a route of several paths is present when the Loc-RIB holds at least one of its paths under its prefix (which ones get installed is bio-rd's choice) and absent when it holds none of them", "cross-key atomicity of DropAllBySrc is not claimed", "a porcupine timeout (30 s per key) makes the run inconclusive, not violated")
+		r.Rule("sequential: PRNG histories of 40 operations (50% AddRoute, 35% RemoveRoute, 15% DropAllBySrc) by 2-4 sources over 3 route keys (IPv4 or IPv6, BGP or static paths, keys may share a prefix and differ in the next hops; one route in three carries 2-3 paths in its API message); half of the histories never re-advertise a key a source is already advertising, the other half do; after EVERY operation ContainsPfxPath for every key, the Loc-RIB dump and nothing else is compared with the set-of-sources model. concurrent: 3-4 source goroutines with scripts of 6-12 operations plus a reader of 8-12 probes and a final quiescent probe of every key, call/return stamped from one atomic counter, checked with porcupine per route key (DropAllBySrc = one operation per key). RIS clients: 2-3 real risclient.RISClients, each on its own in-memory gRPC connection to a fake RIS server with a scripted ObserveRIB stream, write to the merged RIB; PRNG histories of up to 18 events (advertisement, withdrawal, graceful Stop() followed by one more update or the end of the stream, end of stream, stream error, loss of the server, a new client on the same connection); after every event (update: the client's call into the merged RIB returned; source gone: its DropAllBySrc returned or its goroutine left RISClient.serviceLoop) the same ContainsPfxPath + dump comparison with the set-of-sources model. distinct_nontrivial = distinct histories in which some key is advertised by two sources at once AND the last advertising source withdraws or is dropped (sequential), or in which operations of different goroutines on one key overlap in time (concurrent)")
+		r.Assume("a source is an opaque comparable value (the RIS client passes its *grpc.ClientConn); one goroutine per source, as in the RIS mirror", "distinct route keys never share a (prefix, path) pair; a route of several paths is present when the Loc-RIB holds at least one of its paths under its prefix (which ones get installed is bio-rd's choice) and absent when it holds none of them", "cross-key atomicity of DropAllBySrc is not claimed", "a RIS source has gone away when its client left the service loop for any reason (Stop, end of stream, stream error, server lost); a client that was told to Stop() but is still blocked in Recv is not judged", "a porcupine timeout (30 s per key) makes the run inconclusive, not violated")
 		// the first witness of every signature is minimised (greedy removal of operations while the same
 		// clause with the same features still fires) before it is recorded
 		var shrunkMu sync.Mutex
